@@ -176,8 +176,39 @@ def explore(chk, prop, tier):
     return tot, kinds
 
 
+DEEP = ["sep-ws", "sep-num", "units", "levels", "open-parens", "expr-list", "chan-dims", "hashes", "quotes",
+        "ws-run", "semicolons", "colons", "num-ws", "sep-ws-q", "queries", "commas"]
+
+
+def deep_inputs(chk, tier):
+    """C01, stack depth: long repetitive inputs, each in its own process on a thread with a small stack."""
+    n = 20000 if tier == "quick" else 200000
+    done = 0
+    for profile in (("debug",) if tier == "quick" else ("debug", "release")):
+        for pat in DEEP:
+            out, rc, err = harness(["lex-deep", "--pattern", pat, "--n", n, "--stack-kb", 256], profile=profile, timeout=600, check=False)
+            done += 1
+            ok = False
+            if rc == 0:
+                try:
+                    v = json.loads(out.strip().splitlines()[-1])
+                    ok = v.get("survived") and "panic" not in v
+                except Exception:
+                    v = {"raw": out[-200:]}
+            else:
+                v = {"stderr": err[-300:]}
+            if not ok:
+                chk.violation({"engine": "deep", "pattern": pat},
+                              f"input pattern {pat!r} repeated {n} times ({profile} build, 256 KiB stack): process exit {rc} {v} -- not a returned error",
+                              {"pattern": pat, "n": n, "profile": profile, "rc": rc, "detail": v})
+    chk.count(evaluations=done, traces=done)
+    chk.sample({"deep_patterns": DEEP, "repetitions": n})
+
+
 def run(chk, tier, seed):
     tot, kinds = explore(chk, chk.prop, tier)
+    if chk.prop == "C01":
+        deep_inputs(chk, tier)
     if chk.prop == "C04":
         th = tier == "thorough"
         n = 0
@@ -202,4 +233,5 @@ def run(chk, tier, seed):
         chk.cov["distinct_nontrivial"] = tot["cases"]
         chk.cov["conversions_attempted"] = tot["conversions"]
         chk.cov["rule"] = ("the same strings as C04; each is tokenized, executed with Node::run on a permissive tree with a pull-everything handler, and every data token is put through 31 typed conversions "
-                           "and both list iterators (to their first error) under catch_unwind with a 20 s hang watchdog; debug-assertions build (release build in thorough)")
+                           "and both list iterators (to their first error) under catch_unwind with a 20 s hang watchdog; debug-assertions build (release build in thorough); "
+                           f"plus {len(DEEP)} repetitive patterns of 20 000 (thorough: 200 000) repetitions, each run in its own process on a 256 KiB stack (recursion proportional to the input aborts the process)")
